@@ -3199,3 +3199,62 @@ func filepathBase(p string) string {
 	}
 	return p
 }
+
+// stateKeyInjective (C04): a state file belongs to one task name.
+func stateKeyInjective(c *Check, a *Anchors) {
+	c.Rule("state-key-injective", "the file name under which a fingerprint checker keeps the state of a task is an injective function of the task's name: where the name goes through a lossy normalisation (regexp ReplaceAllString, strings.Replace*/Map/ToLower ...) a digest of the ORIGINAL name is part of the result. Otherwise two task names (gen-docs, gen.docs, gen:docs) share one state file, and an attempt that belonged to a different task makes a later run skip this one")
+	n := 0
+	lossy := map[string]bool{"ReplaceAllString": true, "ReplaceAllLiteralString": true, "ReplaceAll": true, "Replace": true, "Map": true, "ToLower": true, "ToUpper": true, "TrimSpace": true, "Trim": true}
+	digest := map[string]bool{"HashString": true, "Hash": true, "Sum256": true, "Sum": true, "Sum64": true, "Sum128": true, "New": false}
+	for _, fb := range c.P.BodiesIn(PkgFingerprint) {
+		if fb.Decl == nil || fb.Decl.Recv == nil {
+			continue
+		}
+		info := fb.Info()
+		for _, r := range returnsOf(fb.Body) {
+			if len(r.Results) != 1 {
+				continue
+			}
+			call, ok := ast.Unparen(r.Results[0]).(*ast.CallExpr)
+			if !ok || !(isFunc(callee(info, call), "path/filepath", "", "Join") || isFunc(callee(info, call), PkgFilepathext, "", "SmartJoin")) || len(call.Args) < 2 {
+				continue
+			}
+			// a state path: first component is the checker's temp dir
+			if sel, ok := ast.Unparen(call.Args[0]).(*ast.SelectorExpr); !ok || sel.Sel.Name != "tempDir" {
+				continue
+			}
+			n++
+			c.Fn(fb)
+			last := ast.Unparen(call.Args[len(call.Args)-1])
+			// walk the helpers that compute the name
+			isLossy, hasDigest := false, false
+			var visit func(e ast.Node, info *types.Info, depth int)
+			visit = func(e ast.Node, info *types.Info, depth int) {
+				ast.Inspect(e, func(m ast.Node) bool {
+					hc, ok := m.(*ast.CallExpr)
+					if !ok {
+						return true
+					}
+					fn, ok := callee(info, hc).(*types.Func)
+					if !ok {
+						return true
+					}
+					if lossy[fn.Name()] && fn.Pkg() != nil && (fn.Pkg().Path() == "regexp" || fn.Pkg().Path() == "strings") {
+						isLossy = true
+					}
+					if digest[fn.Name()] && fn.Pkg() != nil && !strings.HasPrefix(fn.Pkg().Path(), Mod) && (strings.Contains(fn.Pkg().Path(), "xxh") || strings.Contains(fn.Pkg().Path(), "sha") || strings.Contains(fn.Pkg().Path(), "md5") || strings.Contains(fn.Pkg().Path(), "fnv") || strings.Contains(fn.Pkg().Path(), "crc")) {
+						hasDigest = true
+					}
+					if d := c.P.DeclOf(fn); d != nil && depth < 3 && d.Pkg.PkgPath == PkgFingerprint {
+						visit(d.Body, d.Info(), depth+1)
+					}
+					return true
+				})
+			}
+			visit(last, info, 0)
+			c.Decide(!isLossy || hasDigest, "state-key-injective", "name@"+fnDisplay(fb), r.Pos(), "the file name determines the task name (normalisation + digest of the original, or no lossy step)",
+				"the state file name is computed from the task name by a lossy normalisation with no digest of the original name: different task names are mapped to the same state file, so a task is reported up to date because of a run of another task")
+		}
+	}
+	c.Floor("state-key-injective", n, 2)
+}
